@@ -58,23 +58,52 @@ CHECKS = {
         note="Containing-cell arithmetic, prefix property and full consumption of the input are NOT decided.",
         technique="CFG typestate (commit-last) + Kleene NaN evaluation + path-fact check on strchr",
         ref="3.4, 4 (C18)"),
+    'C12': dict(
+        text="Decides the mask/capability discipline for every path, mask and capability set at once: (M1) the six mask "
+             "enums agree bit for bit, including the capability reinterpretation series->exact; (M2) every store to an "
+             "output argument of GenDirect/GenInverse/GenPosition/Lengths (series, exact, rhumb) is on paths that "
+             "establish that output's bit of the incoming mask - judged with a bit-level abstract value of every mask "
+             "expression and gated-write summaries of callees; (M4) all ~90 forwarding overloads request what they "
+             "return; (M3/L1/L2) a licence dataflow proves that no value initialised only under a capability bit, the "
+             "exact flag or Init() reaches an output, a return value, a branch condition or an index on a path that "
+             "does not establish it (this is what makes an unrequested / uncapable / uninitialised query return NaN "
+             "or leave outputs untouched rather than a number).",
+        note="NOT decided: numerical equality of the alternative evaluation paths a mask selects, arc/distance position "
+             "coincidence, the stored third point. Assumes A-ENUM-UNION (masks are unions of enumerators), A-LOOP-FILL. "
+             "Initialisation conditions of members are derived from the constructors/LineInit by the tool, not frozen.",
+        technique="bit-level abstract interpretation of masks on the clang CFG + conditional-initialisation (licence/taint) dataflow",
+        ref="3.2, 3.3"),
+    'C02': dict(
+        text="Decides two structural clauses: (L1) on the inverse path (GenInverse, InverseLine, Lengths, InverseStart, "
+             "Lambda12, series and exact) no conditionally initialised value - series state when exact=true, the "
+             "delegated solver when it was never built, a local that a masked callee did not write - reaches an output, "
+             "a return value or a branch condition; (X6) every loop of the two solvers, including the Newton/bisection "
+             "loop, has a counter cap.",
+        note="NARROW: convergence, shortestness, symmetries and the canonicalisation bookkeeping are numerical and NOT decided.",
+        technique="conditional-initialisation (licence/taint) dataflow over the clang CFG + loop classification",
+        ref="3.3 L1, 3.4 X6, 4 (C02)"),
     'C01': dict(
         text="Decides one structural necessary condition of the accuracy statement: the Maxima-generated series "
              "tables A1, C1, C1', A3, C3 of the active order agree, monomial by monomial as exact rationals, with the "
              "tables of every other order the source carries under #if (a Taylor coefficient cannot depend on the "
-             "truncation order). A wrong high-order coefficient - the first risk the property names - breaks an equation.",
+             "truncation order). A wrong high-order coefficient - the first risk the property names - breaks an equation. "
+             "Also (L1) the exact=true delegation licence on the direct path and (M1) the enum agreement on which "
+             "exact=true lines depend.",
         note="NARROW: does not decide that the result lies on the geodesic, ranges of longitude/azimuth or circuit "
              "counting. Consistent tables need not be the right series. Layout descriptions in glv/rules/tab.py "
              "are trusted (they must consume each table exactly or the check is inconclusive).",
         technique="contradiction rule over sibling constant tables (exact rational comparison of AST initialisers across build configurations)",
         ref="3.5 T1, 4 (C01)"),
     'C03': dict(
-        text="Sibling agreement (as C01) for the tables behind m12, M12, M21 and S12: A2, C2 and the C4 area series.",
+        text="Sibling agreement (as C01) for the tables behind m12, M12, M21 and S12: A2, C2 and the C4 area series; plus the "
+             "mask discipline restricted to these outputs: written only when requested (M2), requested wherever an "
+             "overload returns them (M4), computed only from capability state that was initialised (M3).",
         note="NARROW: Jacobi-equation values, addition rules, the DST area of the exact solver are not decided.",
         technique="contradiction rule over sibling constant tables (exact rational comparison across series orders)",
         ref="3.5 T1, 4 (C03)"),
     'C06': dict(
-        text="Sibling agreement of the Krueger tables b1, alp, bet of TransverseMercator across orders 4..8.",
+        text="Sibling agreement of the Krueger tables b1, alp, bet of TransverseMercator across orders 4..8, and the "
+             "exact=true delegation licence: Forward/Reverse consume the series members only when !exact.",
         note="NARROW: conformality, inverse accuracy and the exact form are not decided.",
         technique="contradiction rule over sibling constant tables (exact rational comparison across series orders)",
         ref="3.5 T1, 4 (C06)"),
